@@ -321,6 +321,20 @@ theorem Inv.bdrop {s : State} (h : Inv s) : Inv (bdrop s) := by
   unfold Async.bdrop
   inv_cases <;> (try exact htl) <;> (try exact haw) <;> simp_all [lastSeen, inputsNow]
 
+/-- ... with the proposed repair 3 (task ids and registrations go with the readers) -/
+theorem Inv.bdropFixed {s : State} (h : Inv s) : Inv (bdropFixed s) := by
+  obtain ⟨⟨r1, r2, r7, m1, aw, s1, s2, t1⟩, ⟨r3, r4, r5, r6, fresh⟩, ⟨e1, e2, e3, e5, e6, e7, e8⟩, ⟨w1, w2, w3⟩⟩ := h
+  have haw : ∀ a ∈ s.aws.map dropAw, AwOK s.loading a := by
+    intro a ha
+    rcases List.mem_map.mp ha with ⟨b, hb, rfl⟩
+    exact (aw b hb).drop
+  have htl : s.tickFired = false → (s.nf = 1 ∧ s.tick0 = true) ∨ (s.aws.map dropAw).any (isTickOf s.nf) = true := by
+    intro hf
+    rw [anyTick_drop]
+    exact t1 hf
+  unfold Async.bdropFixed
+  inv_cases <;> (try exact htl) <;> (try exact haw) <;> simp_all [lastSeen, inputsNow]
+
 theorem Inv.pollA {s : State} (h : Inv s) (i : Nat) : Inv (pollA s i) := by
   obtain ⟨⟨r1, r2, r7, m1, aw, s1, s2, t1⟩, ⟨r3, r4, r5, r6, fresh⟩, ⟨e1, e2, e3, e5, e6, e7, e8⟩, ⟨w1, w2, w3⟩⟩ := h
   have htl : (s.tickFired || tickFires s.nf s.aws[i]?) = false →
@@ -1015,6 +1029,33 @@ theorem Inv.foldl {s : State} (h : Inv s) (es : List Event) : Inv (es.foldl Asyn
 
 /-- the invariant holds after every history -/
 theorem Inv.run (c : Cfg) (es : List Event) : Inv (run c es) := (Inv.init c).foldl es
+
+theorem stepF_false (s : State) (e : Event) : stepF false s e = step s e := by
+  cases e <;> rfl
+
+theorem runF_false (c : Cfg) (es : List Event) : runF false c es = run c es := by
+  unfold runF run
+  congr 1
+  funext s e
+  exact stepF_false s e
+
+theorem Inv.stepF (f : Bool) {s : State} (h : Inv s) (e : Event) : Inv (stepF f s e) := by
+  by_cases hb : e = .bdrop
+  · subst hb
+    cases f
+    · exact h.bdrop
+    · exact h.bdropFixed
+  · have : Async.stepF f s e = Async.step s e := by cases e <;> first | rfl | exact absurd rfl hb
+    rw [this]
+    exact h.step e
+
+theorem Inv.foldlF (f : Bool) {s : State} (h : Inv s) (es : List Event) : Inv (es.foldl (Async.stepF f) s) := by
+  induction es generalizing s with
+  | nil => exact h
+  | cons e es ih => exact ih (h.stepF f e)
+
+/-- ... also with the proposed repair 3 -/
+theorem Inv.runF (f : Bool) (c : Cfg) (es : List Event) : Inv (runF f c es) := (Inv.init c).foldlF f es
 
 /-! ## the ready list -/
 
